@@ -242,8 +242,66 @@ def tracking_history(rng):
     return cases
 
 
+def reuse_after_end_history(rng):
+    """the 8-bit segmentation reference comes round again AFTER the earlier message with it has ended (a segment rejected,
+    or all segments timed out): nothing of the old message may be left to meet the new one - the new message, accepted in
+    full, gets exactly one receipt with its own identity once all its segments are receipted"""
+    sim = CorrSim(ttl_resp_q=15 * Q, ttl_deliv_q=10 ** 7)
+    cases = [Case(sim.first_line, 'ok', None)]
+    fail = None
+    try:
+        ref = rng.randrange(256)
+        na = rng.choice((3, 4))
+        nb = rng.choice((2, na - 1, na))
+        how = rng.choice(('rejected', 'rejected', 'expired'))
+        t = 100
+        # message A: its segments, then the answers - one of them a refusal; or no answers at all until they expire
+        for i in range(1, na + 1):
+            t += 1
+            ln, out = sim.op_put(t, sim.submit(i, 31, 1031, sar=(ref, i, na)))
+            cases.append(Case(ln, out, None))
+        if how == 'rejected':
+            bad = rng.randrange(1, na + 1)
+            for i in rng.sample(range(1, na + 1), na):
+                t += 1
+                ln, out, _ = sim.op_hresp(t, sim.resp('submitresp', i, 8 if i == bad else 0, '' if i == bad else 'a%d' % i))
+                cases.append(Case(ln, out, None))
+        else:
+            t += 16 * Q
+            ln, out = sim.op_put(t, sim.request('enq', 5000))       # the sweep reports A as timed out
+            cases.append(Case(ln, out, None))
+        # message B under the same reference, accepted in full, then its receipts in some order
+        for i in range(1, nb + 1):
+            t += 1
+            ln, out = sim.op_put(t, sim.submit(100 + i, 32, 1032, sar=(ref, i, nb)))
+            cases.append(Case(ln, out, None))
+        for i in rng.sample(range(1, nb + 1), nb):
+            t += 1
+            ln, out, _ = sim.op_hresp(t, sim.resp('submitresp', 100 + i, 0, 'b%d' % i))
+            cases.append(Case(ln, out, None))
+        got = []
+        order = rng.sample(range(1, nb + 1), nb)
+        for k, i in enumerate(order):
+            t += 1
+            ln, out, res = sim.op_hdel(t, sim.deliver(9400 + k, 'x', receipt=('b%d' % i, 0)))
+            cases.append(Case(ln, out, None))
+            if res is not None and res is not sim.em._SUBMIT_SM_SEGMENT:
+                got.append((k, getattr(res, 'log_id', ''), getattr(res, 'extra_data', '')))
+        if [g[1:] for g in got] != [('L32', 'L1032')] or got[0][0] != nb - 1:
+            fail = ('message B (%d segments, reference %d, reused after message A with %d segments had ended %s): receipts handed '
+                    'to the hook: %s, expected exactly one, at the last receipt, with log_id L32 / extra_data L1032' % (nb, ref, na, how, got))
+        ln, out = sim.op_dump()
+        cases.append(Case(ln, out, ('reuse-after-end', how, na, nb), fail,
+                          {'op': 'history', 'label': 'reuse-after-end', 'lines': [c.line for c in cases[1:]]}))
+    finally:
+        sim.close()
+    return cases
+
+
 def generate(rng, tier):
     thorough = tier == 'thorough'
+    for _ in range(60 if thorough else 16):
+        yield from reuse_after_end_history(rng)
     for _ in range(40 if thorough else 12):
         yield from tracking_history(rng)
     for _ in range(120 if thorough else 40):
